@@ -630,6 +630,47 @@ def run_rates(case):
 # ------------------------------------------------------------------------------------------------------
 # non-isothermal incubation
 
+AR_CONFIGS = {'scalar3': 3.0, 'callable': (lambda R: 1.0 + np.asarray(R) / 2e-9), 'default': None}
+
+
+def run_shaped(case):
+    """Bulk / dislocation nucleation of a non-spherical precipitate: nucleationBarrier(dG, prec, aspectRatio) documents
+    Rcrit = 2 f gamma / dG with f the thermodynamic correction factor of the shape AT THE GIVEN ASPECT RATIO, whatever aspect-ratio
+    rule (scalar or function of the radius) the precipitate itself carries - the model passes the aspect ratio of the previous
+    critical radius (seed s12f evaluated the precipitate's own rule on the argument instead)."""
+    site, shape, cfg, gamma, Rmin = case['site'], case['shape'], case['config'], case['gamma'], case['Rmin']
+    viol = []
+    prec = _mk_prec(site, gamma, 0.0, 1e-5, Rmin)
+    setter = {'needle': prec.shapeFactor.setNeedleShape, 'plate': prec.shapeFactor.setPlateShape, 'cuboidal': prec.shapeFactor.setCuboidalShape}[shape]
+    if AR_CONFIGS[cfg] is None:
+        setter()
+    else:
+        setter(AR_CONFIGS[cfg])
+    dga = np.array(case['dgs'], dtype=float)
+    n = 0
+    for ar in case['ars']:
+        f = float(prec.shapeFactor.description.thermoFactor(ar))       # the shape's own factor (its geometry is C15's subject)
+        try:
+            Ra, Ga = nr.nucleationBarrier(dga, prec, ar)
+        except Exception as e:
+            viol.append({'sig': 'shaped/%s/%s/exception' % (shape, cfg), 'msg': '%r ar=%r: %s: %s' % (case, ar, type(e).__name__, e)})
+            continue
+        for i, dg in enumerate(dga):
+            n += 1
+            want = max(2 * f * gamma / dg, Rmin) if dg > 0 else 0.0
+            if not abs(float(Ra[i]) - want) <= 1e-12 * max(want, 1e-300):
+                viol.append({'sig': 'shaped/%s/config=%s/Rcrit' % (shape, cfg),
+                             'msg': 'site=%s gamma=%r Rmin=%r dG=%r aspect ratio %r (f=%r): Rcrit=%r, 2 f gamma / dG (or Rmin) = %r'
+                                    % (site, gamma, Rmin, float(dg), ar, f, float(Ra[i]), want)})
+                break
+            if dg > 0 and not abs(float(Ga[i]) - 4 * math.pi / 3 * gamma * want ** 2) <= 1e-12 * float(Ga[i]):
+                viol.append({'sig': 'shaped/%s/config=%s/Gcrit' % (shape, cfg),
+                             'msg': 'site=%s dG=%r aspect ratio %r: Gcrit=%r, 4 pi/3 gamma Rcrit^2 = %r'
+                                    % (site, float(dg), ar, float(Ga[i]), 4 * math.pi / 3 * gamma * want ** 2)})
+                break
+    return {'viol': viol, 'states': n, 'transitions': n, 'outcome': '%s/%s' % (shape, cfg), 'nontrivial': n > 0}
+
+
 def run_incub(case):
     Z, beta, n, dt, theta = case['Z'], case['beta'], case['n'], case['dt'], case['theta']
     viol = []
@@ -987,6 +1028,12 @@ def run(ctx):
     for c in rcases:
         c['dgs'] = dgs
     ctx.product_run('rates', 'checks.c14:run_rates', rcases)
+    shcases = product({'site': ['bulk', 'dislocations'], 'shape': ['needle', 'plate', 'cuboidal'], 'config': sorted(AR_CONFIGS),
+                       'gamma': [0.02, 0.3], 'Rmin': [3e-10, 1e-9]})
+    for c in shcases:
+        c['dgs'] = [d for d in dgs if d > 0][:: (3 if quick else 1)] + [0.0, -1e7]
+        c['ars'] = [1.0, 2.5, 4.0] if quick else [1.0, 1.5, 2.5, 4.0, 10.0]
+    ctx.product_run('shaped', 'checks.c14:run_shaped', shcases)
     # incubation
     ilv = {'Z': [1e-3, 0.05], 'beta': [1e-3, 1.0, 1e5], 'n': [1, 2, 5, 40], 'dt': [1e-3, 1.0, 1e4], 'theta': [2.0, 4 * math.pi],
            'T0': [800.0], 'dT': [0.0, 5.0, -5.0]}
